@@ -684,6 +684,18 @@ def _is_bound_call(call: Term, f: Func) -> bool:
     return True
 
 
+def positional_args(f: Func, call: Term, bound: bool = False) -> list:
+    """Argument terms of ``call`` in the order of f's parameters, whether they were passed by
+    position or by keyword (None for parameters left at their default)."""
+    m = bind_args(f, call, bound)
+    a = f.node.args
+    names = [x.arg for x in a.posonlyargs + a.args]
+    if bound and names:
+        names = names[1:]
+    names += [x.arg for x in a.kwonlyargs]
+    return [m.get(n) for n in names]
+
+
 def bind_args(f: Func, call: Term, bound: bool) -> dict[str, Term]:
     """Map parameter names of ``f`` to the argument terms of ``call``."""
     assert call[0] == "call"
